@@ -68,6 +68,13 @@ CLAIMED['C07'] = dict(
     note='Trusted: rustc MIR, the driver, spec table (which fields are ignorable), flate2.',
     technique='static analysis: def-use (taint) of ignorable reads, effect analysis per match arm, sibling comparison, abstract evaluation of guards')
 
+CLAIMED['C17'] = dict(
+    category='other',
+    text='Static check of the call structure of blend.rs over rustc MIR: every non-Normal mode is blender(backdrop, src, opacity, its own distinct baseline); every baseline returns normal(backdrop, S\', opacity) on every path with alpha(S\') = alpha of src; blender is merge(merge(N, X, .), X, .) under a visible backdrop and normal(b,s,o) otherwise; normal\'s transparent-backdrop / transparent-source edges and the origin of its general alpha (only the two alphas and opacity); merge\'s alpha = blend8(back_a, src_a, opacity) and invisible-operand edges. From this wiring plus two stated arithmetic helper facts (H1 blend8(a,a,o)=a, H2 merge(c,c,o)=c) the mode-independent alpha law and the transparent-source / transparent-backdrop identities follow. Partial: H1/H2, the 0..255 range clause, the opaque-Normal and zero-opacity identities and all pixel values are NOT decided.',
+    design_ref='DESIGN.md section 4, C17',
+    note='Trusted: rustc MIR, the driver. Assumptions H1, H2 are listed in the evidence; the range clause would need relational numeric reasoning (a solver) - out of this technique family.',
+    technique='static analysis: call-structure provenance over MIR (per-edge return terms, sibling distinctness)')
+
 ALL = ['C%02d' % i for i in range(1, 20)]
 
 
